@@ -5,7 +5,7 @@
 //!   conc : (mode, setup ops, threads [[(op, result)]], observation at quiescence) -> check_conc
 //! An observation = all_nodes ids, all_edges (id, from, to, directed) and per node
 //! edges_of(Outgoing/Incoming) ids, out_degree, in_degree, neighbors(Outgoing/Incoming/Both) ids.
-use graph_engine::{Direction, GraphEngine, GraphError, PropertyValue};
+use graph_engine::{Direction, EdgeInput, GraphEngine, GraphError, PropertyValue};
 use nvh_common::*;
 use std::collections::HashMap;
 use std::cell::Cell;
@@ -21,10 +21,12 @@ enum Op {
     DeleteNode(u64),
     UpdateNode(u64),
     UpdateEdge(u64),
+    Batch(Vec<(u64, u64, bool)>),
 }
 #[derive(Clone, Debug, PartialEq)]
 enum Res {
     Id(u64),
+    Ids(Vec<u64>),
     Ok,
     NoNode(u64),
     NoEdge(u64),
@@ -40,6 +42,7 @@ impl Op {
             Op::DeleteNode(x) => format!("DeleteNode {x}"),
             Op::UpdateNode(x) => format!("UpdateNode {x}"),
             Op::UpdateEdge(e) => format!("UpdateEdge {e}"),
+            Op::Batch(v) => format!("BatchCreateEdges {}", list(v.iter().map(|(f, t, d)| format!("({f}, {t}, {})", b(*d))))),
         }
     }
 }
@@ -47,6 +50,7 @@ impl Res {
     fn coq(&self) -> String {
         match self {
             Res::Id(i) => format!("RId {i}"),
+            Res::Ids(v) => format!("RIds {}", list(v.iter().map(|x| n(*x)))),
             Res::Ok => "ROk".into(),
             Res::NoNode(x) => format!("RNoNode {x}"),
             Res::NoEdge(x) => format!("RNoEdge {x}"),
@@ -85,6 +89,17 @@ fn apply(e: &GraphEngine, o: &Op, salt: u64) -> Res {
             let mut p = HashMap::new();
             p.insert("v".to_string(), PropertyValue::Int(salt as i64));
             unit(e.update_edge(*x, p))
+        }
+        Op::Batch(v) => {
+            let inputs: Vec<EdgeInput> = v.iter().map(|(f, t, d)| EdgeInput::new(*f, *t, "T", HashMap::new(), *d)).collect();
+            match e.batch_create_edges(inputs) {
+                Ok(r) => Res::Ids(r.created_ids),
+                Err(GraphError::BatchValidationError { cause, .. }) => match *cause {
+                    GraphError::NodeNotFound(x) => Res::NoNode(x),
+                    _ => Res::Err,
+                },
+                Err(_) => Res::Err,
+            }
         }
     }
 }
@@ -133,6 +148,11 @@ fn gen_seq(r: &mut Rng, dist: &mut Dist) -> Vec<Op> {
         let op = if k < 10 {
             nc += 1;
             Op::CreateNode
+        } else if k < 16 {
+            let m = r.below(4);
+            let v: Vec<(u64, u64, bool)> = (0..m).map(|_| { let f = r.range(1, nc + 1); (f, if r.chance(1, 6) { f } else { r.range(1, nc + 1) }, r.chance(1, 2)) }).collect();
+            ec += m;
+            Op::Batch(v)
         } else if k < 55 {
             let f = r.range(1, nc + 1);
             let t = if r.chance(1, 6) { f } else { r.range(1, nc + 1) };
@@ -162,6 +182,7 @@ fn gen_seq(r: &mut Rng, dist: &mut Dist) -> Vec<Op> {
             Op::DeleteNode(_) => "seq.delete_node",
             Op::UpdateNode(_) => "seq.update_node",
             Op::UpdateEdge(_) => "seq.update_edge",
+            Op::Batch(_) => "seq.batch_create_edges",
             _ => "seq.other",
         });
         ops.push(op);
@@ -180,7 +201,7 @@ fn seq_case(ops: &[Op], tag: &str, w: &mut CaseWriter, dist: &mut Dist) {
             deleted_node_with_edges = true;
         }
         dist.hit(match res {
-            Res::Id(_) | Res::Ok => "seq.result.ok",
+            Res::Id(_) | Res::Ids(_) | Res::Ok => "seq.result.ok",
             Res::NoNode(_) => "seq.result.node_not_found",
             Res::NoEdge(_) => "seq.result.edge_not_found",
             Res::Err => "seq.result.other_error",
@@ -189,6 +210,19 @@ fn seq_case(ops: &[Op], tag: &str, w: &mut CaseWriter, dist: &mut Dist) {
     }
     let term = format!("({}, {})", list(ops.iter().map(|o| o.coq())), list(items));
     w.push(&term, &format!("{tag} ops={:?}", ops), deleted_node_with_edges);
+}
+
+/// what a thread did, in the form the model replays: a creation carries the id it was given, a
+/// successful batch becomes one creation per returned id
+fn expand(o: &Op, r: &Res) -> Vec<(Op, Res)> {
+    match (o, r) {
+        (Op::CreateEdge(f, t, d), Res::Id(id)) => vec![(Op::CreateEdgeId(*id, *f, *t, *d), r.clone())],
+        (Op::Batch(v), Res::Ids(ids)) if ids.len() == v.len() => {
+            v.iter().zip(ids.iter()).map(|((f, t, d), id)| (Op::CreateEdgeId(*id, *f, *t, *d), Res::Id(*id))).collect()
+        }
+        (Op::Batch(_), Res::NoNode(_)) => vec![],
+        _ => vec![(o.clone(), r.clone())],
+    }
 }
 
 /// run `threads` (one op list each) behind a barrier on a shared engine; returns per-thread (op, result)
@@ -205,11 +239,7 @@ fn run_threads(e: &Arc<GraphEngine>, threads: Vec<Vec<Op>>) -> Vec<Vec<(Op, Res)
                 let mut out = vec![];
                 for (i, o) in ops.iter().enumerate() {
                     let res = guarded(std::panic::AssertUnwindSafe(|| apply(&e, o, (ti * 1000 + i) as u64))).unwrap_or(Res::Err);
-                    let o2 = match (o, &res) {
-                        (Op::CreateEdge(f, t, d), Res::Id(id)) => Op::CreateEdgeId(*id, *f, *t, *d),
-                        _ => o.clone(),
-                    };
-                    out.push((o2, res));
+                    out.extend(expand(o, &res));
                 }
                 out
             })
@@ -247,13 +277,19 @@ thread_local! {
 /// thread 2 cannot get into the SAME list and simply waits for thread 1; other lists are free).
 /// Returns both (op, result) pairs and whether thread 2 finished while thread 1 was held.
 fn hooked_pair(e: &Arc<GraphEngine>, op1: &Op, op2: &Op) -> ((Op, Res), (Op, Res), bool) {
+    let (a, bb, ov) = hooked_pair_at(e, "graph.adjacency_rmw", op1, op2);
+    (a.into_iter().next().unwrap_or((op1.clone(), Res::Err)), bb.into_iter().next().unwrap_or((op2.clone(), Res::Err)), ov)
+}
+
+/// same, holding thread 1 at the first point called `point`; results in replayable form
+fn hooked_pair_at(e: &Arc<GraphEngine>, point: &'static str, op1: &Op, op2: &Op) -> (Vec<(Op, Res)>, Vec<(Op, Res)>, bool) {
     // (thread 1 is at the hook, thread 2 is done)
     let st = Arc::new((Mutex::new((false, false)), Condvar::new()));
     let st_hook = st.clone();
     let overlapped = Arc::new(Mutex::new(false));
     let overlapped_hook = overlapped.clone();
     tensor_store::verif_hook::set(Some(Arc::new(move |name: &str| {
-        if name != "graph.adjacency_rmw" || !PAUSER.with(|p| p.replace(false)) {
+        if name != point || !PAUSER.with(|p| p.replace(false)) {
             return;
         }
         let (m, cv) = &*st_hook;
@@ -288,12 +324,23 @@ fn hooked_pair(e: &Arc<GraphEngine>, op1: &Op, op2: &Op) -> ((Op, Res), (Op, Res
     let r1 = t1.join().unwrap_or(Res::Err);
     let r2 = t2.join().unwrap_or(Res::Err);
     tensor_store::verif_hook::set(None);
-    let fix = |o: &Op, r: &Res| match (o, r) {
-        (Op::CreateEdge(f, t, d), Res::Id(id)) => Op::CreateEdgeId(*id, *f, *t, *d),
-        _ => o.clone(),
-    };
     let ov = *overlapped.lock().unwrap();
-    ((fix(op1, &r1), r1), (fix(op2, &r2), r2), ov)
+    (expand(op1, &r1), expand(op2, &r2), ov)
+}
+
+/// deterministic schedule for the id block of batch_create_edges: thread 1's batch is held after it
+/// has read the edge counter and before it reserves its ids, thread 2 allocates ids meanwhile
+fn batch_id_case(setup: &[Op], op1: Op, op2: Op, tag: &str, w: &mut CaseWriter) -> bool {
+    let e = Arc::new(GraphEngine::new());
+    for (i, o) in setup.iter().enumerate() {
+        let _ = apply(&e, o, i as u64);
+    }
+    let (a, bb, ov) = hooked_pair_at(&e, "graph.batch_edge_ids", &op1, &op2);
+    let ob = observe(&e);
+    let pr = |t: &Vec<(Op, Res)>| list(t.iter().map(|(o, r)| format!("({}, {})", o.coq(), r.coq())));
+    let term = format!("(0, {}, [{}; {}], {})", list(setup.iter().map(|o| o.coq())), pr(&a), pr(&bb), ob);
+    w.push(&term, &format!("{tag} schedule: T1 {:?} held between reading the edge counter and reserving its id block, T2 {:?}; T2 finished while T1 was held: {ov}; T1 got {:?}, T2 got {:?}", op1, op2, a, bb), true);
+    ov
 }
 
 fn scheduled_case(setup: &[Op], op1: Op, op2: Op, tag: &str, w: &mut CaseWriter) -> bool {
@@ -457,6 +504,46 @@ fn main() {
             dist.hit("conc.hook_schedule");
         }
         dist.add("conc.hook_schedule.t2_finished_inside_t1_rmw", overlapped);
+    }
+    // batch_create_edges racing single creations for edge ids: deterministic through the hook, then stress
+    {
+        let setup = vec![Op::CreateNode, Op::CreateNode, Op::CreateNode, Op::CreateEdge(1, 2, true)];
+        let mut overlapped = 0;
+        for (o1, o2) in [
+            (Op::Batch(vec![(1, 2, true), (1, 3, false)]), Op::CreateEdge(3, 1, true)),
+            (Op::Batch(vec![(2, 3, false)]), Op::Batch(vec![(3, 1, true), (1, 1, false)])),
+            (Op::Batch(vec![(1, 2, true), (2, 3, true), (3, 1, true)]), Op::CreateEdge(2, 2, false)),
+        ] {
+            if batch_id_case(&setup, o1, o2, "hook schedule batch ids", &mut conc) {
+                overlapped += 1;
+            }
+            dist.hit("conc.hook_schedule_batch_ids");
+        }
+        dist.add("conc.hook_schedule_batch_ids.t2_allocated_inside_t1_window", overlapped);
+        for t in [2u64, 4, 8] {
+            for rep in 0..args.budget(1, 10) {
+                let nn = rng.range(3, 6);
+                let mut setup = vec![];
+                for _ in 0..nn {
+                    setup.push(Op::CreateNode);
+                }
+                let threads: Vec<Vec<Op>> = (0..t)
+                    .map(|ti| {
+                        (0..rng.range(30, 60))
+                            .map(|_| {
+                                if ti % 4 == 3 || rng.chance(1, 4) {
+                                    Op::CreateEdge(rng.range(1, nn), rng.range(1, nn), rng.chance(1, 2))
+                                } else {
+                                    Op::Batch((0..rng.range(1, 3)).map(|_| (rng.range(1, nn), rng.range(1, nn), rng.chance(1, 2))).collect())
+                                }
+                            })
+                            .collect()
+                    })
+                    .collect();
+                conc_case(0, &setup, threads, &format!("batch + single creations t={t} rep={rep}"), &mut conc);
+                dist.hit(&format!("conc.batch_and_single_creations.threads_{t}"));
+            }
+        }
     }
     // delete_node above PARALLEL_THRESHOLD (rayon branch) with many edges to the same few neighbours
     for rep in 0..args.budget(3, 30) {
